@@ -3,4 +3,5 @@ import Rpki.Props.C04
 #print axioms Rpki.Props.C04.manifest_uris_cannot_panic
 #print axioms Rpki.Props.C04.encode_verify_cannot_panic
 #print axioms Rpki.Props.C04.asn_count_total
+#print axioms Rpki.Props.C04.capture_iterate_parity
 #print axioms Rpki.Props.C04.readTlv_partition
